@@ -108,6 +108,11 @@ func (c *Ctx) tempCode() (int64, bool) {
 				if isPtrToNamed(arg.Type(), c.P.ModPath, "RPCConnectionError") {
 					code, found = k, true
 				}
+			} else if ok && strings.HasPrefix(calleeName(call), "reflect.TypeFor") {
+				// reflect.TypeFor[*RPCConnectionError]()
+				if f := call.Common().StaticCallee(); f != nil && len(f.TypeArgs()) == 1 && isPtrToNamed(f.TypeArgs()[0], c.P.ModPath, "RPCConnectionError") {
+					code, found = k, true
+				}
 			}
 		}
 	})
